@@ -212,11 +212,16 @@ def render_type(s, t, opts):
     notes = []
     if fieldless:
         keep = [d for d in derives if d in KEEP_DERIVES_FIELDLESS]
+        manual_clone = "Clone" in keep and "Copy" not in keep
+        if manual_clone:
+            keep.remove("Clone")
         if keep:
             out.append("#[derive(%s)]" % ", ".join(keep))
         out.append(body)
-        if "Default" in derives:
-            pass
+        if manual_clone:
+            out.append(
+                "impl Clone for %s {\n    #[verifier::external_body]\n    fn clone(&self) -> (r: Self)\n        ensures r == *self\n    { unimplemented!() }\n}" % name)
+            notes.append("derive(Clone) on %s replaced by external_body impl with assumed spec `clone() == *self`" % name)
     else:
         out.append(body)
         if "Clone" in derives and name not in opts.get("noclone", ()):
@@ -249,6 +254,7 @@ class Item:
         self.havoc = []
         self.scaffold = 0
         self.trusted = False
+        self.elsewhere = False
         self.name = ident.split("::")[-1].split("/")[-1]
         self.body_text = ""
 
@@ -257,7 +263,7 @@ class Item:
             "id": self.ident, "kind": self.kind, "props": self.props, "src": self.srcfile,
             "src_lines": self.src_lines, "body_sha": self.body_sha, "gen_lines": self.gen_lines,
             "contract_lines": self.contract_lines, "clauses": self.clauses, "havoc": self.havoc, "scaffold": self.scaffold, "name": self.name, "body_text": self.body_text,
-            "trusted": self.trusted,
+            "trusted": self.trusted, "elsewhere": self.elsewhere,
         }
 
 
@@ -475,39 +481,80 @@ def peg_alternatives(s, r):
     return alts
 
 
-def peg_action(s, a, b):
-    """Within alternative [a,b): find depth-0 labels and the final action block."""
-    labels = []
+def peg_blocks(s, a, b, out):
+    """Walk the sequence text [a,b): collect every action block with the labels in scope
+    (depth-0 labels of the sequence the block terminates). Appends dicts to out in
+    textual order of the block's opening brace. Returns the labels of this sequence."""
+    # split into alternatives at depth 0
+    alts = []
     depth = 0
+    last = a
     k = a
-    blocks = []
     while k < b:
         ch = s.m[k]
-        if ch in "([":
+        if ch in "([{":
             k = s.match_close(k) + 1
             continue
-        if ch == "{":
-            c = s.match_close(k)
-            blocks.append((k, c))
-            k = c + 1
-            continue
-        lm = re.match(r"([A-Za-z_]\w*)\s*:(?!:)", s.m[k:b])
-        if lm and (k == 0 or not (s.m[k - 1].isalnum() or s.m[k - 1] == "_")):
-            labels.append(lm.group(1))
-            k += lm.end()
-            continue
-        # skip identifier wholly
-        im = re.match(r"[A-Za-z_]\w*", s.m[k:b])
-        if im:
-            k += im.end()
-            continue
+        if ch == "/" and depth == 0:
+            alts.append((last, k))
+            last = k + 1
         k += 1
+    alts.append((last, b))
+    for (x, y) in alts:
+        labels = []
+        k = x
+        own = []
+        while k < y:
+            ch = s.m[k]
+            if ch == "(":
+                c = s.match_close(k)
+                peg_blocks(s, k + 1, c, out)
+                k = c + 1
+                continue
+            if ch == "[":
+                k = s.match_close(k) + 1
+                continue
+            if ch == "{":
+                c = s.match_close(k)
+                rec = {"open": k, "close": c, "labels": list(labels)}
+                own.append(rec)
+                out.append(rec)
+                k = c + 1
+                continue
+            lm = re.match(r"([A-Za-z_]\w*)\s*:(?!:)", s.m[k:y])
+            if lm and (k == 0 or not (s.m[k - 1].isalnum() or s.m[k - 1] == "_")):
+                labels.append(lm.group(1))
+                k += lm.end()
+                continue
+            im = re.match(r"[A-Za-z_]\w*", s.m[k:y])
+            if im:
+                k += im.end()
+                continue
+            k += 1
+        for rec in own:
+            rec["labels"] = list(labels) if rec is own[-1] else rec["labels"]
+    out.sort(key=lambda r: r["open"])
+
+
+def peg_action(s, a, b, block=None):
+    """Within alternative [a,b): the chosen action block (default: the alternative's own,
+    i.e. the last depth-0 block; block=N: N-th block in textual order incl. nested groups)."""
+    blocks = []
+    peg_blocks(s, a, b, blocks)
     if not blocks:
         raise AnchorLost("peg alternative has no action block")
-    o, c = blocks[-1]
+    if block is None:
+        # last block that is at depth 0 of the alternative
+        top = [r for r in blocks if not any(o["open"] < r["open"] and r["close"] < o["close"] for o in blocks) and s.m[a:r["open"]].count("(") == s.m[a:r["open"]].count(")")]
+        rec = top[-1] if top else blocks[-1]
+    else:
+        if block < 1 or block > len(blocks):
+            raise AnchorLost("peg alternative has %d action blocks, wanted #%d" % (len(blocks), block))
+        rec = blocks[block - 1]
+    o, c = rec["open"], rec["close"]
     fallible = s.text[o + 1:o + 2] == "?"
     inner_start = o + 2 if fallible else o + 1
-    return labels, fallible, inner_start, c
+    return rec["labels"], fallible, inner_start, c
 
 
 # --------------------------------------------------------------------------
@@ -534,6 +581,7 @@ class Gen:
         self.out = []
         self.items = []
         self.props_default = []
+        self.force_trusted = False
         self.substs = []
         self.dropped = []
         self.notes = []
@@ -579,8 +627,12 @@ class Gen:
             elif d == "include":
                 p = os.path.join(SPECS, toks[1])
                 sub = open(p, encoding="utf-8").read().split("\n")
-                self.emit("// ---- include %s" % toks[1])
+                self.emit("// ---- include %s%s" % (toks[1], " (contracts only: bodies verified in another unit)" if "trusted" in toks[2:] else ""))
+                saved = self.force_trusted
+                if "trusted" in toks[2:]:
+                    self.force_trusted = True
                 self.process(sub)
+                self.force_trusted = saved
                 i += 1
             elif d == "types":
                 i = self.do_types(toks[1:], i + 1, lines)
@@ -728,6 +780,9 @@ class Gen:
         opts.update(extra)
         for f in flags:
             opts[f] = True
+        if self.force_trusted:
+            opts["trusted"] = True
+            item.elsewhere = True
         c0 = len(self.out)
         hdr = self.emit("// ---- fn %s from %s:%d" % (name, rel, s.line_of(loc["sig_start"])))
         txt = render_fn(s, loc, self.vac(contract, kv.get("id", name)), opts, item)
@@ -786,6 +841,9 @@ class Gen:
                 opts[f] = True
             if is_trait:
                 opts["in_trait"] = True
+            if self.force_trusted:
+                opts["trusted"] = True
+                item.elsewhere = True
             self.emit("// ---- method %s from %s:%d" % (mname, rel, s.line_of(loc["sig_start"])))
             txt = render_fn(s, loc, self.vac(contract, ident), opts, item)
             item.gen_lines = self.emit(txt)
@@ -802,7 +860,7 @@ class Gen:
         if alt < 1 or alt > len(alts):
             raise AnchorLost("peg rule %s has %d alternatives, wanted #%d" % (rule, len(alts), alt))
         a, b = alts[alt - 1]
-        labels, fallible, bs, be = peg_action(s, a, b)
+        labels, fallible, bs, be = peg_action(s, a, b, int(kv["block"]) if kv.get("block") else None)
         params = kv.get("params", "")
         pnames = [p.split(":")[0].strip() for p in split_depth0(params, ",") if p.strip()]
         extra_params = [p for p in kv.get("ruleargs", "").split(",") if p]
@@ -814,7 +872,8 @@ class Gen:
             ret = "Result<%s, &'static str>" % ret
         contract, extra, i, term = self.collect(i, lines)
         fname = kv.get("name", "act_%s_%d" % (rule, alt))
-        item = self.new_item("peg:%s#%d" % (rule, alt), "peg", kv, rel, s, bs, be)
+        pid_ = "peg:%s#%d" % (rule, alt) + (".%s" % kv["block"] if kv.get("block") else "")
+        item = self.new_item(pid_, "peg", kv, rel, s, bs, be)
         cl = count_clauses(contract)
         for k in cl:
             item.clauses[k] += cl[k]
@@ -823,7 +882,7 @@ class Gen:
         body = apply_befores(body, extra.get("befores", []), item)
         self.emit("// ---- peg action %s alt %d from %s:%d" % (rule, alt, rel, s.line_of(bs)))
         sig = "pub fn %s(%s) -> (%s: %s)" % (fname, params, kv.get("retname", "r"), ret)
-        c = self.vac(contract, "peg:%s#%d" % (rule, alt))
+        c = self.vac(contract, pid_)
         txt = sig + "\n" + (c.rstrip("\n") + "\n" if c.strip() else "") + "{" + body + "}\n"
         item.gen_lines = self.emit(txt)
         return i + 1
